@@ -249,7 +249,16 @@ func twoTemplates(c *CheckRun, pool int) []*Scenario {
 				return b
 			}
 			// tree B uses a different byte set, so that anything tree A left behind in a recycled node stays visible
-			bsB := fanBytes(cls.grow, c.Seed+7, 3)
+			inA := map[int]bool{}
+			for _, b := range bs {
+				inA[b] = true
+			}
+			var bsB []int
+			for _, b := range fanBytes(256, c.Seed+7, 3) {
+				if !inA[b] && len(bsB) < cls.grow {
+					bsB = append(bsB, b) // disjoint from A's bytes (A holds 00,01,7f,80,fe,ff): every stale entry stays visible
+				}
+			}
 			for _, b := range bsB {
 				ops = append(ops, [3]int{1, opInsertC, conc(b)})
 			}
@@ -304,6 +313,17 @@ func aliasScenarios(c *CheckRun) []*Scenario {
 			// the scanner idiom: one buffer reused
 			out = append(out, simple("hAlias", "byte-string []byte: one buffer reused", 0, 1, 3, 0, n1, 1, 0, n2, 0, 1, n1, 0))
 		}
+	}
+	// long keys: a concrete stem of 15/16/31/32/33/62 bytes plus one symbolic byte (stack-buffer and size-class boundaries)
+	stems := []int{31, 32}
+	if c.Tier != "quick" {
+		stems = []int{15, 16, 31, 32, 33, 62}
+	}
+	for _, st := range stems {
+		for op := 0; op <= 4; op++ {
+			out = append(out, simple("hAlias", fmt.Sprintf("byte-string []byte: %d-byte keys with spare capacity", st+1), 0, 0, 2, 0, aSpec(st, 1), 1, op, aSpec(st, 1), 2))
+		}
+		out = append(out, simple("hAlias", fmt.Sprintf("byte-string []byte: %d-byte keys, one buffer reused", st+1), 0, 1, 3, 0, aSpec(st, 1), 1, 0, aSpec(st, 1), 0, 1, aSpec(st, 1), 0))
 	}
 	// collation []byte tree
 	for op := 0; op <= 4; op++ {
